@@ -392,6 +392,8 @@ class NP:
             r = r.copy()
             if A.floaty(dtype):
                 r.dtype = "real"
+            elif dtype is not None and A.is_int_type(dtype) and r.dtype == "real":
+                r = r.astype(dtype)
             if isinstance(like, Arr):
                 r.kind = like.kind
             elif self._kind == "dask":
@@ -403,6 +405,8 @@ class NP:
         r = lift(x)
         if isinstance(r, Arr) and A.floaty(dtype) and r.dtype != "real":
             r = r.astype(float)
+        elif isinstance(r, Arr) and dtype is not None and A.is_int_type(dtype) and r.dtype == "real":
+            r = r.astype(dtype)
         return r
 
     def atleast_2d(self, x):
